@@ -176,4 +176,10 @@ def varExists (A : Arr) (x : Nat) : Arr := applyWithFlip A A Gen.or_ none (some 
 /-- `Bdd::var_for_all` -/
 def varForAll (A : Arr) (x : Nat) : Arr := applyWithFlip A A Gen.and_ none (some x) none
 
+/-- `var_exists` with the `check_flip_bounds` panic (`x ≥ num_vars`) made explicit: `none` = panic -/
+def varExistsO (A : Arr) (x : Nat) : Option Arr := if x < numVars A then some (varExists A x) else none
+
+/-- `var_for_all` with the `check_flip_bounds` panic made explicit -/
+def varForAllO (A : Arr) (x : Nat) : Option Arr := if x < numVars A then some (varForAll A x) else none
+
 end B
